@@ -25,7 +25,8 @@ FAMILIES = ["gauss_cov_scalar", "gauss_cov_vec", "gauss_cov_full", "gauss_prec_f
             "gmrf_neumann", "gmrf2d", "normal", "gamma", "invgamma", "beta", "laplace", "lognormal",
             "uniform", "cauchy", "mhn", "gauss_sqrtprec_lower", "gauss_sqrtprec_full", "gauss_sqrtcov_upper",
             "gauss_sqrtcov_full", "gauss_prec_vec", "gauss_geom_cont1d", "gauss_geom_image2d", "normal_geom_cont1d",
-            "gamma_geom_discrete", "gauss_sqrtprec_full_forder", "gauss_sqrtprec_sparse_bidiag", "gauss_mean_cuqiarray", "gmrf_mean_cuqiarray",
+            "gamma_geom_discrete", "gauss_scalar_mean_geom", "gauss_scalar_all", "normal_scalar_geom", "gamma_scalar_geom",
+            "laplace_scalar_geom", "uniform_scalar_geom", "gauss_sqrtprec_full_forder", "gauss_sqrtprec_sparse_bidiag", "gauss_mean_cuqiarray", "gmrf_mean_cuqiarray",
             "user_defined_gauss"]
 
 
@@ -68,6 +69,18 @@ def build_dist(rec):
     if fam == "gamma_geom_discrete":
         import cuqi
         return D.Gamma(np.linspace(1.0, 3.0, n), 1.5, geometry=cuqi.geometry.Discrete(["v%d" % i for i in range(n)]))
+    if fam == "gauss_scalar_mean_geom":
+        return D.Gaussian(0.5, np.linspace(0.5, 2.0, n), geometry=n)        # scalar mean broadcast over the geometry
+    if fam == "gauss_scalar_all":
+        return D.Gaussian(0.0, 1.3, geometry=n)
+    if fam == "normal_scalar_geom":
+        return D.Normal(0.2, 0.7, geometry=n)
+    if fam == "gamma_scalar_geom":
+        return D.Gamma(2.0, 1.5, geometry=n)
+    if fam == "laplace_scalar_geom":
+        return D.Laplace(0.1, 0.8, geometry=n)
+    if fam == "uniform_scalar_geom":
+        return D.Uniform(-1.0, 2.0, geometry=n)
     if fam == "gauss_sqrtprec_full_forder":
         return D.Gaussian(mean, sqrtprec=np.asfortranarray(np.eye(n) + 0.5 * (B + B.T)))
     if fam == "gauss_sqrtprec_sparse_bidiag":
